@@ -15,7 +15,8 @@ func init() {
 		Rule:     "trial = generated SAM (reference 4..60, 1..8 queries or 60..150 one-record queries, 1..3 primary/supplementary records per query overlapping or not and agreeing or conflicting, CIGARs over M I D N S H P = X incl. leading/trailing D, unmapped/secondary records interleaved) x --pad x --start/--end x --wrap, 3 seeded schedules with --threads in {1,2,3,4,8} and chunked SAM reads; oracle = executable reference model of the projection; non-trivial = at least one multi-record query or at least one D/N/I operator, and at least 2 queries; distinct = distinct (input, options)",
 		Gen:      genC01,
 		Check:    checkC01,
-		Required: []string{"overtaken_by_256_or_more", "out_of_order_arrival", "multi_record_query", "conflicting_overlap", "junk_record_inside_block", "deletion_facing_base_in_overlap"},
+		Required: []string{"multi_record_query", "conflicting_overlap", "junk_record_inside_block", "deletion_facing_base_in_overlap"},
+		Expected: []string{"overtaken_by_256_or_more", "out_of_order_arrival"},
 	})
 }
 
